@@ -252,7 +252,64 @@ impl C12 {
     }
 
     /// (f) the real binary: a rejected manifest => exit status 1 and a first line `n2: error: ...`; never a signal or a Rust panic
+    /// the real binary actually running a command whose text carries odd bytes: it must end (no thread panic) with
+    /// exit 0, or exit 1 and an error / failed line
+    fn bb_exec(&mut self, case: &Case, env: &Env) -> CaseOut {
+        let mut t = Tape::new(&case.main);
+        prepare_dir(env);
+        let mut junk: Vec<u8> = vec![];
+        for _ in 0..t.below(6) {
+            junk.extend_from_slice([&b"a"[..], b" ", b"\0", b"\xff", b"\xc3", b"$$", b"'", b"\"", b"\\", b"\xe2\x82\xac", b";", b"#"][t.below(12)]);
+        }
+        let place = t.below(4);
+        let mut m: Vec<u8> = b"rule r\n  command = true ".to_vec();
+        if place == 0 {
+            m.extend_from_slice(&junk);
+        }
+        m.extend_from_slice(b"\n  description = D");
+        if place == 1 {
+            m.extend_from_slice(&junk);
+        }
+        m.extend_from_slice(b"\n");
+        if place == 2 {
+            m.extend_from_slice(b"  rspfile = out.rsp\n  rspfile_content = ");
+            m.extend_from_slice(&junk);
+            m.extend_from_slice(b"\n");
+        }
+        m.extend_from_slice(b"build out: r\n");
+        if place == 3 {
+            m.extend_from_slice(b"  depfile = d");
+            m.extend_from_slice(&junk);
+            m.extend_from_slice(b"\n");
+        }
+        std::fs::write("build.ninja", &m).unwrap();
+        let mut out = CaseOut { evals: 1, nontrivial: !junk.is_empty(), ..Default::default() };
+        let child = std::process::Command::new("timeout").args(["-s", "KILL", "20"]).arg(crate::bb::n2_binary()).args(["-j", "1", "out"]).stdin(std::process::Stdio::null()).output();
+        match child {
+            Err(e) => out.viols.push(Viol::new("INFRA", "cannot-run-n2", format!("cannot run n2: {}", e))),
+            Ok(o) => {
+                let so = String::from_utf8_lossy(&o.stdout).into_owned();
+                let se = String::from_utf8_lossy(&o.stderr).into_owned();
+                if se.contains("panicked") || so.contains("panicked") {
+                    out.viols.push(Viol::new("C12", "binary-panicked", format!("n2 panicked while building with this manifest: {}", se.lines().find(|l| l.contains("panicked")).unwrap_or("").chars().take(200).collect::<String>())));
+                } else if o.status.code() == Some(137) || o.status.code().is_none() {
+                    out.viols.push(Viol::new("INFRA", "watchdog", "n2 did not finish within 20 s".to_string()));
+                } else if !(o.status.code() == Some(0) || (o.status.code() == Some(1) && (so.contains("n2: error: ") || so.contains("failed: ")))) {
+                    out.viols.push(Viol::new("C12", "exit-status", format!("exit {:?} without an error or failed line: {:?}", o.status.code(), so.chars().take(200).collect::<String>())));
+                }
+            }
+        }
+        out.fp = fnv(&[&m]);
+        out.classes = vec!["bb-exec".into()];
+        out.desc = json!({"manifest": String::from_utf8_lossy(&m)});
+        let _ = std::env::set_current_dir("/");
+        out
+    }
+
     fn bb_cli(&mut self, case: &Case, env: &Env) -> CaseOut {
+        if case.main.first().copied().unwrap_or(0) % 3 == 0 {
+            return self.bb_exec(case, env);
+        }
         let mut out = self.mutants(case, env);
         if !out.viols.is_empty() {
             return out;
@@ -305,6 +362,10 @@ impl C12 {
         }
         if t.chance(5) {
             target = "d/".repeat(1 + t.below(59)) + "f";
+        }
+        if t.chance(8) {
+            // long names of multi-byte characters at every alignment
+            target = "x".repeat(t.below(70)) + &["\u{e9}", "\u{20ac}", "\u{1F600}"][t.below(3)].repeat(1 + t.below(60));
         }
         let mut out = CaseOut { evals: 1, ..Default::default() };
         let _ = util::take_stdout();
